@@ -1,6 +1,8 @@
 mod module_info;
 mod module_node;
 mod test;
+#[cfg(feature = "verif")]
+mod verif;
 mod workspace;
 
 use emmylua_parser::LuaVersionCondition;
